@@ -1,4 +1,5 @@
-import LanceModel.C40.ListLemmas
+import LanceModel.C40.MergeLemmas
+import LanceModel.C40.Spec
 /-
 C40 — Arrow helper transformations preserve values.
 
@@ -62,6 +63,80 @@ theorem trimmed_rebased_spec (lg : Bool) (off len : Nat) (nulls : Option Nulls) 
       = logical (.list lg off len nulls offs child) :=
   logical_rebased lg off len nulls offs child hw
 
+/-- `filter_garbage_nulls`: same logical value for every list array (sliced, offsets not starting at 0, slack after the
+    last offset, garbage of any length behind NULLs, with or without a validity buffer, empty) -/
+theorem filter_garbage_nulls_spec (lg : Bool) (off len : Nat) (nulls : Option Nulls) (offs : List Nat) (child : Arr)
+    (hw : wf (.list lg off len nulls offs child) = true) :
+    logical (filterGarbageNulls (.list lg off len nulls offs child)) = logical (.list lg off len nulls offs child) :=
+  logical_fgn lg off len nulls offs child hw
+
+/-- … and the result is clean: same validity, offsets start at 0, "list entries behind a null become empty", and the
+    values end where the offsets end (every value is referenced by a valid row) -/
+theorem filter_garbage_nulls_clean (lg : Bool) (off len : Nat) (n : Nulls) (offs : List Nat) (child : Arr)
+    (hw : wf (.list lg off len (some n) offs child) = true) (hlen : len ≠ 0) :
+    ∃ offs' child', filterGarbageNulls (.list lg off len (some n) offs child) = .list lg 0 len (some n) offs' child'
+      ∧ offs'.getD 0 0 = 0
+      ∧ (∀ i, i < len → validAt (some n) i = false → offs'.getD (i + 1) 0 = offs'.getD i 0)
+      ∧ offs'.getD len 0 = child'.len :=
+  fgn_clean lg off len n offs child hw hlen
+
+/-! ### struct.rs -/
+
+/-- `pushdown_nulls`: same logical value … -/
+theorem pushdown_nulls_spec (len : Nat) (nulls : Option Nulls) (names : List String) (cols : List Arr)
+    (hw : wf (.struct len nulls names cols) = true) :
+    logical (pushdownNulls (.struct len nulls names cols)) = logical (.struct len nulls names cols) :=
+  logical_pushdownNulls len nulls names cols hw
+
+/-- … and every child is NULL wherever the struct is NULL -/
+theorem pushdown_nulls_cover (len : Nat) (n : Nulls) (names : List String) (cols : List Arr)
+    (hw : wf (.struct len (some n) names cols) = true) (i : Nat) (hi : i < len) (hv : validAt (some n) i = false) :
+    ∃ cols', pushdownNulls (.struct len (some n) names cols) = .struct len (some n) names cols'
+      ∧ ∀ c' ∈ cols', (logical c').getD i .null = .null :=
+  pushdownNulls_cover len n names cols hw i hi hv
+
+/-! ### lib.rs: merge / merge_with_schema — the validity rules
+
+The full statement for `merge` is `merge_full` below (row-wise `mergeRow`).  Proved so far: the three rules it is made of.
+The recursion of `mergeStruct` calls itself on `adjust`ed children, so `adjust_child_validity_spec` +
+`merge_validity` apply at every depth. -/
+
+/-- `adjust_child_validity`: a child row under a NULL parent row is NULL; under a valid parent row it is unchanged -/
+theorem adjust_child_validity_spec (c : Arr) (p : Option Nulls) (i : Nat) (hi : i < c.len) :
+    (logical (adjust c p)).getD i .null = if validAt p i then (logical c).getD i .null else .null :=
+  adjust_spec c p i hi
+
+/-- `merge_struct_validity`: row-wise OR, for every pair of validity buffers (absent, all-null, offset) -/
+theorem merge_struct_validity_spec (l r : Option Nulls) (len i : Nat) (hi : i < len) :
+    validAt (orNulls l r len) i = (validAt l i || validAt r i) :=
+  orNulls_spec l r len i hi
+
+/-- `merge`: row `i` of the result is NULL iff it is NULL on both sides (the "different validity" rule) -/
+theorem merge_validity (fuel : Nat) (l r m : Arr) (h : mergeStruct fuel l r = .ok m) :
+    m.len = l.len ∧ l.len = r.len ∧ ∀ i, i < l.len → validAt m.nulls i = (validAt l.nulls i || validAt r.nulls i) :=
+  mergeStruct_validity fuel l r m h
+
+/-- `merge_with_schema`: the same -/
+theorem merge_with_schema_validity (fuel : Nat) (l r m : Arr) (fn : List String) (ft : List Ty)
+    (h : mergeWS fuel l r fn ft = .ok m) :
+    m.len = l.len ∧ l.len = r.len ∧ ∀ i, i < l.len → validAt m.nulls i = (validAt l.nulls i || validAt r.nulls i) :=
+  mergeWS_validity fuel l r m fn ft h
+
+/-- FULL statement for `merge` (not yet proved in Lean; evaluated on the real code by the harness oracle `spec_merge` on
+    every run): the merged batch is the row-wise `mergeRow` of the two batches -/
+def merge_full : Prop :=
+  ∀ (llen : Nat) (ln : List String) (lc : List Arr) (rlen : Nat) (rn : List String) (rc : List Arr) (m : Arr),
+    wf (.struct llen none ln lc) = true → wf (.struct rlen none rn rc) = true →
+    mergeBatch (.struct llen none ln lc) (.struct rlen none rn rc) = .ok m →
+    logical m = (List.range llen).map (fun i =>
+      mergeRow rn (tyOfCols rc) ln (tyOfCols lc)
+        ((logical (.struct llen none ln lc)).getD i .null) ((logical (.struct rlen none rn rc)).getD i .null))
+
+/-- FULL statement for `project_by_schema` (not yet proved in Lean; evaluated by the harness oracle `spec_project`) -/
+def project_full : Prop :=
+  ∀ (a b : Arr) (names : List String) (tys : List Ty), wf a = true → projectBatch a names tys = .ok b →
+    logical b = (logical a).map (projectRow names tys)
+
 /-! ### lib.rs: take -/
 
 /-- `RecordBatchExt::take`: rows `idx` of the batch, in that order, repetitions included -/
@@ -92,5 +167,18 @@ example : 1 + 2 ≤ exList.len := by decide
 example : wf (slice exList 1 2) = true := by decide
 example : takeBatch (.struct 3 none ["l"] [exList]) [2, 0, 2] =
     .ok (gather (.struct 3 none ["l"] [exList]) [2, 0, 2]) := by rfl
+
+
+/-- the lance test `test_filter_garbage_nulls`: items 0..9, offsets 2,5,8,9, validity T,F,T -/
+def exFgn : Arr := .list false 0 3 (some ⟨0, [true, false, true]⟩) [2, 5, 8, 9] (.prim false 0 10 none [0, 1, 2, 3, 4, 5, 6, 7, 8, 9])
+example : wf exFgn = true := by decide
+example : (3 : Nat) ≠ 0 := by decide
+example : validAt (some ⟨0, [true, false, true]⟩) 1 = false := by decide
+example : wf (.struct 3 (some ⟨1, [true, true, false, true]⟩) ["l"] [exList]) = true := by decide
+/-- merge of two batches whose struct column `s` has different validity on the two sides -/
+def exL : Arr := .struct 2 none ["s"] [.struct 2 (some ⟨0, [false, true]⟩) ["a"] [.prim false 0 2 none [1, 2]]]
+def exR : Arr := .struct 2 none ["s"] [.struct 2 none ["b"] [.prim false 0 2 none [3, 4]]]
+example : ∃ m, mergeStruct 64 exL exR = .ok m := ⟨_, rfl⟩
+example : ∃ m, mergeWS 64 exL exR ["s"] [.struct ["b", "a"] [.int, .int]] = .ok m := ⟨_, rfl⟩
 
 end LanceModel.C40
